@@ -15,8 +15,8 @@ for name in sorted(os.listdir(os.path.join(V, "seeded"))):
             if "(" in l:
                 sigs.append(l[l.rindex("(") + 1:].rstrip(") "))
     what = (m.get("breaks") or "").replace("|", "/").replace("\n", " ")
-    if len(what) > 230:
-        what = what[:227] + "..."
+    if len(what) > 150:
+        what = what[:147] + "..."
     files = ", ".join(m.get("files") or [])
     rows.append("| %s | %s | %s | %s | %s |" % (name, files, what, ", ".join(det) if det else "**missed**",
                                           "; ".join(sorted(set(sigs))[:2])))
